@@ -4,8 +4,13 @@
 (* case  : one API (reset line = alts, avail, authz + how the driver renders *)
 (*         it: schemes, where, kinds, undef, and the requests to send)       *)
 (* events: built {alts, anon}            structure the router derived        *)
-(*         req {variant, order, out}     a new request starts; out = the     *)
-(*                                       per-scheme outcome vector it carries *)
+(*         req {variant, order, out,     a new request starts; out = the     *)
+(*              target, alts}            per-scheme outcome vector it carries, *)
+(*                                       alts = the requirement of the        *)
+(*                                       operation it addresses (the API has  *)
+(*                                       sibling operations and a global      *)
+(*                                       requirement using the same schemes   *)
+(*                                       with other scopes)                   *)
 (*         auth_call {scheme, k, scopes} an authenticator was consulted      *)
 (*         authz_call {principal}        the authorizer was consulted        *)
 (*         done {status, err, ran, bind, consumer_calls, principal, scopes}  *)
@@ -14,7 +19,7 @@ EXTENDS Security, Json, IOUtils
 VARIABLES l, st, skipping, fails, cs
 
 SInit(e) == [c |-> [alts |-> e.alts, avail |-> e.avail, authz |-> e.authz, out |-> <<>>],
-             calls |-> <<>>, authz |-> <<>>, open |-> FALSE]
+             calls |-> <<>>, cscopes |-> <<>>, authz |-> <<>>, open |-> FALSE]
 
 \* buildAuthenticators: one RouteAuthenticator per alternative, same schemes, anonymous detected
 StructureOK(c, e) ==
@@ -31,6 +36,7 @@ SAllowed(s, e) ==
     [] e.ev = "auth_call"  -> /\ s.open
                               /\ CallOK(s.c, e.scheme)
                               /\ e.k = s.c.out[e.scheme].k          \* the scripted outcome was returned
+                              /\ CallScopesOK(s.c, Append(s.calls, e.scheme), Append(s.cscopes, e.scopes))
     [] e.ev = "authz_call" -> s.open /\ s.c.authz # "none" /\ s.authz = <<>>
     [] e.ev = "done"       -> s.open /\ ~e.panic /\ DoneOK(s.c, s.calls, s.authz, e)
     [] OTHER -> FALSE
@@ -39,6 +45,7 @@ SWhy(s, e) ==
   CASE e.ev = "built"      -> "router-structure-differs-from-declared-requirements"
     [] e.ev = "req"        -> "driver-protocol"
     [] e.ev = "auth_call"  -> IF s.open /\ ~CallOK(s.c, e.scheme) THEN "authenticator-consulted-that-is-not-required-or-not-registered"
+                              ELSE IF s.open /\ e.k = s.c.out[e.scheme].k THEN "authenticator-handed-scopes-of-no-alternative-of-the-requested-operation"
                               ELSE "driver-protocol"
     [] e.ev = "authz_call" -> IF s.c.authz = "none" THEN "driver-protocol" ELSE "authorizer-consulted-twice"
     [] e.ev = "done"       -> IF ~s.open THEN "driver-protocol" ELSE IF e.panic THEN "panic"
@@ -46,8 +53,9 @@ SWhy(s, e) ==
     [] OTHER -> "unknown-event"
 
 SStep(s, e) ==
-  CASE e.ev = "req"        -> [s EXCEPT !.c.out = e.out, !.calls = <<>>, !.authz = <<>>, !.open = TRUE]
-    [] e.ev = "auth_call"  -> [s EXCEPT !.calls = Append(@, e.scheme)]
+  CASE e.ev = "req"        -> [s EXCEPT !.c.out = e.out, !.c.alts = e.alts, !.calls = <<>>, !.cscopes = <<>>,
+                                        !.authz = <<>>, !.open = TRUE]
+    [] e.ev = "auth_call"  -> [s EXCEPT !.calls = Append(@, e.scheme), !.cscopes = Append(@, e.scopes)]
     [] e.ev = "authz_call" -> [s EXCEPT !.authz = Append(@, e.principal)]
     [] e.ev = "done"       -> [s EXCEPT !.open = FALSE]
     [] OTHER -> s
